@@ -3,6 +3,7 @@ package file
 import (
 	"errors"
 	"fmt"
+	"math"
 	"time"
 
 	"gopkg.in/yaml.v3"
@@ -251,6 +252,12 @@ func (s *Stage) validateCommonFieldsOfStage(idx int, defaults Stage) (*Stage, er
 			return nil, fmt.Errorf("missing stage mode at stage %d", idx)
 		}
 		s.Mode = defaults.Mode
+	}
+
+	for _, f := range []*float64{s.Jitter, defaults.Jitter, s.Volume, defaults.Volume} {
+		if f != nil && (math.IsNaN(*f) || math.IsInf(*f, 0)) {
+			return nil, fmt.Errorf("jitter and volume must be finite numbers at stage %d", idx)
+		}
 	}
 
 	return s, nil
